@@ -30,7 +30,7 @@ class Parenthesis(Token):
                                  Separator) and self.get_name == ')':
             from .operand import Empty
             Empty().ast(tokens, stack, builder)
-        if self.has_start and tokens and isinstance(tokens[-1], Operand):
+        if self.has_start and _follows_operand(tokens):
             raise TokenError
         super(Parenthesis, self).ast(tokens, stack, builder)
         if self.has_start:
@@ -58,6 +58,16 @@ class Parenthesis(Token):
                     builder.append(Separator(','))
 
             _update_n_args(stack)
+
+
+def _follows_operand(tokens):
+    # True when the last token ends an operand (operand, `)` or `%`).
+    from .operand import Operand
+    if tokens:
+        t = tokens[-1]
+        b = isinstance(t, Parenthesis) and t.has_end
+        return b or isinstance(t, Operand) or t.name == '%'
+    return False
 
 
 def _update_n_args(stack):
